@@ -282,6 +282,8 @@ fn operand_json<'tcx>(
                 if let Some(pi) = uv.promoted {
                     o.put("promoted", J::Int(pi.as_usize() as i128));
                     o.put("promoted_of", J::s(key(tcx, uv.def)));
+                } else if uv.def.is_local() && matches!(tcx.def_kind(uv.def), DefKind::Const { .. } | DefKind::AssocConst { .. }) {
+                    o.put("const_def", J::s(key(tcx, uv.def)));
                 }
             }
             match cty.kind() {
@@ -583,6 +585,8 @@ fn body_json<'tcx>(tcx: TyCtxt<'tcx>, ldid: LocalDefId) -> Option<J> {
     let dk = tcx.def_kind(did);
     let body: &Body<'tcx> = match dk {
         DefKind::Fn | DefKind::AssocFn | DefKind::Closure => tcx.optimized_mir(did),
+        // named constants: their (compile-time) body gives the value a `CONST` operand stands for
+        DefKind::Const { .. } | DefKind::AssocConst { .. } => tcx.mir_for_ctfe(did),
         _ => return None,
     };
     let env = TypingEnv::post_analysis(tcx, did);
